@@ -10,6 +10,7 @@ import (
 	"runtime/pprof"
 	"strings"
 	"sync"
+	"sync/atomic"
 	"time"
 
 	"github.com/cybergarage/go-redis/redis"
@@ -219,6 +220,16 @@ func c15setup(tier string, seed uint64) int {
 		for _, l := range []string{"plain", "tls", "both"} {
 			c15.gated = append(c15.gated, c15gated{Kind: "stop-vs-accept", Listeners: l, Rep: rep})
 			c15.gated = append(c15.gated, c15gated{Kind: "stop-vs-unwind", Listeners: l, Rep: rep})
+			// Stop while a client that has already gone away (reset) is still registered because its handler is busy
+			for _, how := range []string{"reset", "fin"} {
+				c15.gated = append(c15.gated, c15gated{Kind: "stop-vs-gone-client", Listeners: l, Plain: how, Rep: rep})
+			}
+		}
+		// Stop while all registered clients hang up (free-running: Stop's walk over the registry races with the
+		// connection goroutines finishing on their own)
+		hangups := map[string]int{"quick": 18, "thorough": 60}[tier]
+		for k := 0; k < hangups; k++ {
+			c15.gated = append(c15.gated, c15gated{Kind: "stop-under-hangup-storm", Listeners: []string{"plain", "tls", "both"}[k%3], Rep: rep*1000 + k})
 		}
 		// Stop while many clients are connecting (free-running: the window between "is the registry stopped?"
 		// and "register" has no schedule point, so it is exercised by repetition)
@@ -455,6 +466,10 @@ func c15runGated(idx int, g c15gated) run.Result {
 		}
 	case "stop-under-connect-storm":
 		stopStorm(&res, s, ctl, idx, g.Rep, "C15", desc)
+	case "stop-vs-gone-client":
+		stopVsGoneClient(&res, s, ctl, g, sig, desc)
+	case "stop-under-hangup-storm":
+		hangupStorm(&res, s, ctl, idx, g, sig, desc)
 	case "stop-vs-unwind":
 		var clients []*tcpClient
 		for i := 0; i < 3; i++ {
@@ -469,8 +484,7 @@ func c15runGated(idx int, g c15gated) run.Result {
 		}
 		ctl.Gate("conn.exit")
 		if err := s.srv.Stop(); err != nil {
-			res.Inconclusive = "Stop failed: " + err.Error()
-			return res
+			res.Count("stop_returned_error", 1)
 		}
 		// Stop has returned. A connection goroutine parked at its own exit point provably has not finished.
 		parked := 0
@@ -498,6 +512,244 @@ func c15runGated(idx int, g c15gated) run.Result {
 	}
 	res.Sample = desc
 	return res
+}
+
+// afterStopReturned probes what C15 promises once Stop has returned - whether or not it reported an error:
+// the ports can be bound again, the registry is empty once no server goroutine is working, and a new Start works.
+func afterStopReturned(res *run.Result, s *lcServer, sig string, stopErr error, desc any) bool {
+	errNote := ""
+	if stopErr != nil {
+		res.Count("stop_returned_error", 1)
+		errNote = fmt.Sprintf(" (Stop returned the error %q)", clipS(stopErr.Error(), 200))
+	}
+	if why := s.probeBindable(); why != "" {
+		res.Violate(sig+":bind", "after Stop returns the ports can be bound again", why+errNote, desc)
+		return false
+	}
+	deadline := time.Now().Add(watchdog)
+	for time.Now().Before(deadline) && busyServerGoroutines() > 0 {
+		time.Sleep(5 * time.Millisecond)
+	}
+	if busyServerGoroutines() > 0 {
+		res.Inconclusive = "server goroutines still working at the end of the watchdog window"
+		return false
+	}
+	if n := len(s.srv.Conns()); n != 0 {
+		res.Violate(sig+":registry", "after Stop returns the connection registry is empty", fmt.Sprintf("%d entries with no server goroutine working%s", n, errNote), desc)
+		return false
+	}
+	if n, dump := serverGoroutines(); n > 0 {
+		// parked (not busy) server goroutines after Stop: accept loops or connection goroutines that were never ended
+		for _, g := range strings.Split(dump, "\n\n") {
+			if strings.Contains(g, ".serve(") || strings.Contains(g, ".tlsServe(") {
+				res.Violate(sig+":accept-loop-left", "after Stop returns no server goroutine remains", "an accept loop is still parked in Accept after Stop returned"+errNote+"\n"+clipS(g, 800), desc)
+				return false
+			}
+		}
+	}
+	res.Count("stop_postconditions_probed", 1)
+	return true
+}
+
+// rstClose makes the client vanish with a reset (linger 0) instead of an orderly FIN.
+func rstClose(c *tcpClient) {
+	nc := c.c
+	if tc, ok := nc.(*tls.Conn); ok {
+		nc = tc.NetConn()
+	}
+	if tc, ok := nc.(*net.TCPConn); ok {
+		tc.SetLinger(0)
+	}
+	nc.Close()
+}
+
+func localPort(c *tcpClient) int {
+	nc := c.c
+	if tc, ok := nc.(*tls.Conn); ok {
+		nc = tc.NetConn()
+	}
+	if a, ok := nc.LocalAddr().(*net.TCPAddr); ok {
+		return a.Port
+	}
+	return 0
+}
+
+// peerSocketState returns the kernel's state (hex, as in /proc/net/tcp) of the server-side socket of the
+// connection srvPort<-cliPort, "" when no such socket is hashed any more (a reset socket is unhashed).
+func peerSocketState(srvPort, cliPort int) string {
+	l, r := fmt.Sprintf(":%04X", srvPort), fmt.Sprintf(":%04X", cliPort)
+	for _, f := range []string{"/proc/net/tcp", "/proc/net/tcp6"} {
+		b, err := os.ReadFile(f)
+		if err != nil {
+			continue
+		}
+		for _, ln := range strings.Split(string(b), "\n")[1:] {
+			fs := strings.Fields(ln)
+			if len(fs) >= 4 && strings.HasSuffix(fs[1], l) && strings.HasSuffix(fs[2], r) {
+				return fs[3]
+			}
+		}
+	}
+	return ""
+}
+
+// stopVsGoneClient: a client sends a command whose handler is still running, then goes away (reset or FIN);
+// Stop is called while that connection is still registered. Everything Stop promises must hold afterwards.
+func stopVsGoneClient(res *run.Result, s *lcServer, ctl *sched.Ctl, g c15gated, sig string, desc any) {
+	sig += ":" + g.Plain
+	var armed atomic.Bool
+	parked := make(chan struct{}, 8)
+	release := make(chan struct{})
+	s.rec.Yield = func() {
+		if armed.Load() {
+			parked <- struct{}{}
+			<-release
+		}
+	}
+	released := false
+	defer func() {
+		if !released {
+			close(release)
+		}
+	}()
+	var gone []*tcpClient
+	for _, t := range s.ports() {
+		c, err := s.dial(t)
+		if err != nil {
+			res.Inconclusive = "client could not connect"
+			return
+		}
+		defer c.c.Close()
+		if _, err := c.do("PING"); err != nil {
+			res.Inconclusive = "PING failed"
+			return
+		}
+		gone = append(gone, c)
+	}
+	armed.Store(true)
+	for _, c := range gone {
+		c.c.SetDeadline(time.Now().Add(watchdog))
+		if _, err := c.c.Write(resp.Encode(resp.Cmd("GET", "k"))); err != nil {
+			res.Inconclusive = "write failed"
+			return
+		}
+		if !armed.Load() {
+			continue // commands run one at a time: this request queues behind the first connection's handler
+		}
+		select {
+		case <-parked:
+		case <-time.After(watchdog):
+			res.Inconclusive = "the handler was not reached"
+			return
+		}
+		armed.Store(false)
+	}
+	for i, c := range gone {
+		port := s.plain
+		if _, ok := c.c.(*tls.Conn); ok {
+			port = s.tls
+		}
+		lp := localPort(c)
+		if g.Plain == "reset" {
+			rstClose(c)
+			// the reset has arrived when the kernel no longer lists the server-side socket
+			dl := time.Now().Add(watchdog)
+			for peerSocketState(port, lp) != "" && time.Now().Before(dl) {
+				time.Sleep(time.Millisecond)
+			}
+			if peerSocketState(port, lp) != "" {
+				res.Inconclusive = "the reset did not arrive"
+				return
+			}
+		} else {
+			c.c.Close()
+			dl := time.Now().Add(watchdog)
+			for peerSocketState(port, lp) == "01" && time.Now().Before(dl) {
+				time.Sleep(time.Millisecond)
+			}
+		}
+		_ = i
+	}
+	res.Count("clients_gone_before_stop", int64(len(gone)))
+	done := make(chan error, 1)
+	go func() { done <- s.srv.Stop() }()
+	var stopErr error
+	select {
+	case stopErr = <-done:
+	case <-time.After(watchdog):
+		// Stop may legitimately wait for the busy handler: release it and wait again
+		close(release)
+		released = true
+		select {
+		case stopErr = <-done:
+			res.Count("stop_waited_for_handler", 1)
+		case <-time.After(watchdog):
+			res.Inconclusive = "Stop did not return"
+			return
+		}
+	}
+	if !released {
+		close(release)
+		released = true
+	}
+	afterStopReturned(res, s, sig, stopErr, desc)
+}
+
+// hangupStorm: every registered client hangs up (FIN or reset) while Stop runs.
+func hangupStorm(res *run.Result, s *lcServer, ctl *sched.Ctl, idx int, g c15gated, sig string, desc any) {
+	r := rng.New(c15.seed, rng.Str("C15hangup"), uint64(idx), uint64(g.Rep))
+	n := 24 + r.Intn(41)
+	var clients []*tcpClient
+	for i := 0; i < n; i++ {
+		c, err := s.dial(s.plain == 0 || (s.tls != 0 && i%2 == 1))
+		if err != nil {
+			res.Inconclusive = "client could not connect"
+			return
+		}
+		defer c.c.Close()
+		if _, err := c.do("PING"); err != nil {
+			res.Inconclusive = "PING failed"
+			return
+		}
+		clients = append(clients, c)
+	}
+	res.Count("hangup_storm_connections", int64(n))
+	start := make(chan struct{})
+	var wg sync.WaitGroup
+	lanes := 8
+	for l := 0; l < lanes; l++ {
+		wg.Add(1)
+		go func(l int) {
+			defer wg.Done()
+			<-start
+			for i := l; i < len(clients); i += lanes {
+				if (i/lanes+l)%2 == 0 {
+					rstClose(clients[i])
+				} else {
+					clients[i].c.Close()
+				}
+			}
+		}(l)
+	}
+	spin := r.Intn(2000)
+	done := make(chan error, 1)
+	go func() {
+		<-start
+		for i := 0; i < spin; i++ {
+			_ = i
+		}
+		done <- s.srv.Stop()
+	}()
+	close(start)
+	wg.Wait()
+	var stopErr error
+	select {
+	case stopErr = <-done:
+	case <-time.After(watchdog):
+		res.Inconclusive = "Stop did not return"
+		return
+	}
+	afterStopReturned(res, s, sig, stopErr, desc)
 }
 
 // stopStorm: Stop in the middle of a connect storm (shared by C15 and C19).
@@ -530,10 +782,8 @@ func stopStorm(res *run.Result, s *lcServer, ctl *sched.Ctl, idx int, rep int, p
 	// let some connections register, then Stop in the middle of the storm
 	ctl.WaitCount("conn.registered", 4+r.Intn(40), watchdog)
 	if err := s.srv.Stop(); err != nil {
-		close(stopDial)
-		wg.Wait()
-		res.Inconclusive = "Stop failed: " + err.Error()
-		return
+		// an error is no excuse: everything below is promised "after Stop returns"
+		res.Count("stop_returned_error", 1)
 	}
 	close(stopDial)
 	wg.Wait()
@@ -633,7 +883,11 @@ func c15runSeq(idx int, q c15seq) run.Result {
 		res.Count("lifecycle_calls", 1)
 		sig := fmt.Sprintf("C15:history:%s%s", call, tag())
 		switch {
-		case call == "Stop" && err == nil:
+		case call == "Stop":
+			// what Stop promises holds once it has returned, with or without an error
+			if err != nil {
+				res.Count("stop_returned_error", 1)
+			}
 			running = false
 			for _, c := range clients {
 				if !clientClosed(c) {
@@ -725,7 +979,7 @@ func init() {
 	run.Register(&run.Prop{
 		ID: "C15", Level: "fault_enumeration",
 		Rule: func(tier string) string {
-			return "two parts. (gated, hook H2) a controller parks goroutines at named schedule points and releases them in a chosen order: Restart vs the exiting accept loops for {plain, TLS, both} listeners with each old loop's exit (and its deferred close) placed before Stop returns / after the new listeners are open / concurrently (3, 3 and 9 placements); Stop vs a connection accepted while Stop is between its two phases; Stop vs connection goroutines parked at their exit point; Stop in the middle of a connect storm (16 dialing goroutines, repeated; a connection that answers after Stop returned, or that is still registered at a fixed point, is a violation). Postconditions probed after everything is released: dial+PING on every enabled port (twice), bind probe, client-side EOF, Conns() empty, goroutine profile. (histories) ALL call sequences over {Start, Stop, Restart} up to length 4 (quick) / 6 (thorough) x {plain, plain+TLS} with 0..3 clients connecting, idling or disconnecting between calls; after each call the promise of that call is probed, and at quiescent instants len(Conns()) must equal the number of client sockets held open (waiting on the conn.deregistered point, not on time). Start on a running server is tagged start-while-running. A goroutine leak is only reported when the count stays above baseline for the whole grace window; a goroutine parked at its own schedule point after Stop returned is a strict violation. Children are race-detector builds. distinct = scenario/sequence"
+			return "two parts. (gated, hook H2) a controller parks goroutines at named schedule points and releases them in a chosen order: Restart vs the exiting accept loops for {plain, TLS, both} listeners with each old loop's exit (and its deferred close) placed before Stop returns / after the new listeners are open / concurrently (3, 3 and 9 placements); Stop vs a connection accepted while Stop is between its two phases; Stop vs connection goroutines parked at their exit point; Stop in the middle of a connect storm (16 dialing goroutines, repeated; a connection that answers after Stop returned, or that is still registered at a fixed point, is a violation); Stop while a client whose handler is still running has already gone away by reset or FIN (the reset is known to have arrived when the kernel no longer lists the server-side socket); Stop while 24..64 registered clients hang up by FIN and reset at the same moment (free-running, repeated). What Stop promises is probed whenever Stop returns, with or without an error. Postconditions probed after everything is released: dial+PING on every enabled port (twice), bind probe, client-side EOF, Conns() empty, goroutine profile. (histories) ALL call sequences over {Start, Stop, Restart} up to length 4 (quick) / 6 (thorough) x {plain, plain+TLS} with 0..3 clients connecting, idling or disconnecting between calls; after each call the promise of that call is probed, and at quiescent instants len(Conns()) must equal the number of client sockets held open (waiting on the conn.deregistered point, not on time). Start on a running server is tagged start-while-running. A goroutine leak is only reported when the count stays above baseline for the whole grace window; a goroutine parked at its own schedule point after Stop returned is a strict violation. Children are race-detector builds. distinct = scenario/sequence"
 		},
 		Exhaustive:    func(string) bool { return true },
 		Assumptions:   []string{"TLS listeners are configured through the file-based path with a PKI minted at run time", "wall-clock watchdogs only produce 'inconclusive'"},
